@@ -71,14 +71,26 @@ func c16Scenarios(tier string) []*Scenario {
 		bound = 1
 	}
 	// (a) raw client -> real server
+	nthBurst := map[string]int{}
 	for _, method := range []string{"Unary", "ClientStream", "ServerStream", "Bidi"} {
 		for _, rs := range c16ReqSeqs() {
-			for _, burst := range []bool{false, true} {
+			for _, burst := range []bool{false, true, true} {
 				method, rs, burst := method, rs, burst
 				clientStreams := method == "ClientStream" || method == "Bidi"
+				// third variant: a lenient handler that swallows the error of its request read,
+				// answers anyway and returns OK (the outcome must not depend on the handler)
+				lenient := false
+				if burst {
+					if nthBurst[method+rs.name]++; nthBurst[method+rs.name] == 2 {
+						if clientStreams || rs.nMsgs < 2 {
+							continue
+						}
+						lenient = true
+					}
+				}
 				scs = append(scs, &Scenario{
-					Name: fmt.Sprintf("c16/a/%s/%s/burst=%v", method, rs.name, burst), Prop: "C16",
-					Desc: fmt.Sprintf("raw client opens a %s stream on the real server and sends request frame sequence %s (%d complete messages, half-close=%v), frame by frame as the server digests them (burst=false) or all at once before the server reads anything (burst=true); the handler reads until the end", method, rs.name, rs.nMsgs, rs.half),
+					Name: fmt.Sprintf("c16/a/%s/%s/burst=%v%s", method, rs.name, burst, map[bool]string{true: "/lenient"}[lenient]), Prop: "C16",
+					Desc: fmt.Sprintf("raw client opens a %s stream on the real server and sends request frame sequence %s (%d complete messages, half-close=%v), frame by frame as the server digests them (burst=false) or all at once before the server reads anything (burst=true); the handler reads until the end (lenient=%v: it ignores a failed read, responds and returns OK)", method, rs.name, rs.nMsgs, rs.half, lenient),
 					Opt:  Options{Level: "io", Bound: bound},
 					Run: func(w *World) {
 						h := grpctunnel.NewTunnelServiceHandler(grpctunnel.TunnelServiceHandlerOptions{})
@@ -92,6 +104,7 @@ func c16Scenarios(tier string) []*Scenario {
 						if method == "ServerStream" {
 							hs.Ops = []HOp{{K: "recv"}, {K: "send", Size: 3}, {K: "return"}}
 						}
+						hs.KeepGoing = lenient
 						w.Scripts["s1"] = hs
 						rc, err := w.OpenRawClient(n, true)
 						if err != nil {
@@ -186,11 +199,17 @@ func c16Scenarios(tier string) []*Scenario {
 			rseqs = append(rseqs, respSeq{fmt.Sprintf("n%d/close=%s", n, c), n, c, true})
 		}
 	}
+	// several responses and then silence: the caller of a non-server-streaming method fails at
+	// the second response; its context is never cancelled and the peer never closes the stream
+	rseqs = append(rseqs, respSeq{"n2/noclose", 2, codes.OK, false}, respSeq{"n3/noclose", 3, codes.OK, false})
 	for _, method := range []string{"Unary", "ClientStream", "ServerStream", "Bidi"} {
 		for _, rs := range rseqs {
 			for _, split := range []bool{false, true} {
 				method, rs, split := method, rs, split
 				serverStreams := method == "ServerStream" || method == "Bidi"
+				if !rs.closed && serverStreams {
+					continue
+				}
 				scs = append(scs, &Scenario{
 					Name: fmt.Sprintf("c16/b/%s/%s/split=%v", method, rs.name, split), Prop: "C16",
 					Desc: fmt.Sprintf("real client calls %s on a scripted raw server that answers with %d response messages (split=%v) and close %s", method, rs.nMsgs, split, rs.code),
@@ -213,7 +232,9 @@ func c16Scenarios(tier string) []*Scenario {
 									_ = c.Send(fResp(1, uint32(len(b)), b))
 								}
 							}
-							_ = c.Send(fClose(1, rs.code, "scripted"))
+							if rs.closed {
+								_ = c.Send(fClose(1, rs.code, "scripted"))
+							}
 							c.DrainAll()
 							return nil
 						})
@@ -223,7 +244,7 @@ func c16Scenarios(tier string) []*Scenario {
 						if err != nil {
 							return
 						}
-						spec := CallSpec{ID: "r1", Tag: 1, Method: method}
+						spec := CallSpec{ID: "r1", Tag: 1, Method: method, KeepCtx: !rs.closed}
 						if method == "Unary" {
 							spec.Ops = []COp{{K: "invoke", Size: 3}}
 						} else {
